@@ -5,6 +5,7 @@ R-C09-1  kind contracts along the branch protocol are satisfiable (contradiction
          add_guard on entry and to if_then_else on exit must have a kind both accept; call arities match
 R-C09-2  merge covers every tracked variable, new value in the true position, backup taken before the guard
 R-C09-3  condition algebra of elif / else / while / break
+R-C09-5  guard discipline of lazily evaluated and nested branches (shared instances of C08's rules)
 R-C09-4  loops and merges are oblivious (C06 rules over branching.py)
 """
 import ast
@@ -239,6 +240,10 @@ def check(repo, rep, tier):
     rule_merge(repo, r2)
     r3 = rep.rule("R-C09-3", "condition algebra of elif / else / while / break / for", floor=6)
     rule_algebra(repo, r3)
+    r5 = rep.rule("R-C09-5", "lazily evaluated / nested branches run under exactly the conjunction of their conditions and leave "
+                  "no guard behind (shared with C08)", floor=10)
+    from .c08 import guard_discipline
+    guard_discipline(repo, r5)
     r4 = rep.rule("R-C09-4", "branching constructs are oblivious (C06 rules over branching.py)", floor=1)
     mods = {BR}
     eval_tainted_alts(repo, r4, mods)
